@@ -10,19 +10,21 @@ NOTES = ("Every check is `python -m vp.runner <ID>`: fixed regression cases, the
 # what was added to a check after its fragment was written (seeded rounds, see DESIGN.md 6.4)
 ADDENDA = {
  "C01": "Later additions: falsy and None seeds, group-graph driver on the registry's own dependency sets, pooled run_all driver, the same graph object evaluated 1-3 times per case.",
- "C02": "Later additions: falsy produced/seeded values (also in the exhaustive shapes), optional evaluation before the enabled/disabled configuration is applied, repeated evaluation of one graph object.",
- "C03": "Later additions: observers as functools.partial / callable instances / bound methods, falsy values, a warm-up evaluation of the same graph object.",
- "C04": "Later additions: graph dicts that are not closed under dependencies, falsy values, records for components outside the graph are reported.",
+ "C02": "Later additions: the requires= keyword spelling of declarations, falsy produced/seeded values (also in the exhaustive shapes), optional evaluation before the enabled/disabled configuration is applied, repeated evaluation of one graph object.",
+ "C03": "Later additions: BlacklistedSpec as a fault kind, observers as functools.partial / callable instances / bound methods, falsy values, a warm-up evaluation of the same graph object.",
+ "C04": "Later additions: brokers hydrated from a serialized archive (found and fixed a KeyError in dr.run), sub-check override (overriding spec implementations under every schedule), graph dicts that are not closed under dependencies, falsy values, records for components outside the graph are reported.",
  "C05": "Later additions: evaluations between spec-set definitions, implementations that succeed with a falsy value ('', 0, []).",
- "C06": "Later additions: paths through a directory link followed by '..', in-root symlinks among the files that are persisted.",
- "C08": "Later additions: regex exclusion patterns with capturing groups and numbered back-references.",
- "C09": "Later additions: pools of 11-16 originals and sweeps over them (more than ten substitutes issued).",
- "C10": "Later additions: specs whose every active obfuscator is exempt (blank collapse), the same allow-list object used for two cleanings, netstat-shaped width-mode cases under several hash seeds.",
- "C11": "Later additions: persistence on a thread pool with a slow first element; sub-check 'errors' (a spec with evaluation-time errors whose fallback command fails lazily at persist time keeps all its errors).",
- "C12": "Later additions: further evaluators observing the same broker; the response held by the broker after the run equals what the rule returned.",
- "C13": "Later addition: sub-check 'atheris' (coverage-guided libFuzzer campaign with the differential oracle inside the target).",
- "C14": "Later addition: after a parser created with extra_bad_lines a second parser without them must accept output containing those phrases.",
- "C18": "Later additions: two-segment exclusion requests naming children of other top-level mappings, revocation entries sharing a name or without name, sub-check 'dupkey' (text-level insertion under a repeated key is refused or changes the digest).",
+ "C06": "Later additions: sub-check collect (end-to-end collect.collect() with manifest configs and a deny list by component name, literal path and literal command), paths through a directory link followed by '..', in-root symlinks among the files that are persisted.",
+ "C07": "Later addition: the archive path is also read with the size limit lowered (truncated read of extra-huge files).",
+ "C08": "Later additions: an exempt spec cleaned by the same cleaner first, regex exclusion patterns with capturing groups and numbered back-references.",
+ "C09": "Later additions: sub-check sysname (cleaner built without a name, display name configured), pools of 11-16 originals and sweeps over them (more than ten substitutes issued).",
+ "C10": "Later additions: sub-check big (line counts around powers of two through write / clean_file), child interpreters with a history of another cleaner, domain-peer cases, specs whose every active obfuscator is exempt (blank collapse), the same allow-list object used for two cleanings, netstat-shaped width-mode cases under several hash seeds.",
+ "C11": "Later additions: a by-name look-up before the components are defined, persistence on a thread pool with a slow first element; sub-check 'errors' (a spec with evaluation-time errors whose fallback command fails lazily at persist time keeps all its errors).",
+ "C12": "Later additions: a machine-id spec whose content raises (InsightsEvaluator), further evaluators observing the same broker; the response held by the broker after the run equals what the rule returned.",
+ "C13": "Later additions: InstalledRpm mixed with its subclass YumListRpm; sub-check 'atheris' (coverage-guided libFuzzer campaign with the differential oracle inside the target).",
+ "C14": "Later additions: sub-check framework (multi-output spec -> command parser through dr.run); after a parser created with extra_bad_lines a second parser without them must accept output containing those phrases.",
+ "C16": "Later addition: percent signs in string values (raw config parser).",
+ "C18": "Later additions: lone surrogates, hex spellings in the revocation list, two-segment exclusion requests naming children of other top-level mappings, revocation entries sharing a name or without name, sub-check 'dupkey' (text-level insertion under a repeated key is refused or changes the digest).",
  "C19": "Later addition: WithIndent and HangingString are part of the term language and of the reference interpreter (indentation stack); they are no longer 'not covered'.",
- "C20": "Later additions: falsy attribute literals (0, ''), expressions derived from the expression under test before it is evaluated.",
+ "C20": "Later additions: a numeric node name, fresh literal objects, falsy attribute literals (0, ''), expressions derived from the expression under test before it is evaluated.",
 }
